@@ -178,7 +178,7 @@ theorem not_mem_foldl_actStep (fs : List Fault) (f : Nat) : ∀ (tr : List Pop) 
         cases a with
         | true => simp only [actStep, List.mem_cons, not_or]; exact ⟨fun h' => hg h'.symm, h⟩
         | false => simp only [actStep]; exact fun hm => h (List.mem_of_mem_erase hm)
-      | healall t => simp only [actStep]; exact fun hm => h (List.mem_filter.mp hm).1
+      | healall t k => simp only [actStep]; exact fun hm => h (List.mem_filter.mp hm).1
       | _ => simpa [actStep] using h
 
 theorem take_subset_no_fault {f : Nat} {tr : List Pop} (k : Nat)
@@ -243,6 +243,59 @@ theorem cancelled_fault_is_noop (c : Case) (tr : List Pop) (k f : Nat) (g : Faul
         prodOver_congr _ (capDen c.faults) (capDen c'.faults)
           (fun x hx => by simp only [capDen, hk x hx])]
 
+/-! ### the restart instant -/
+
+theorem clear_of_down (fs : List Fault) (f e : Nat) (h : 0 < downC fs f e) (tr : List Pop) :
+    Clear fs f tr := by
+  intro hp
+  exfalso
+  unfold downC at h
+  unfold isPartF at hp
+  cases hk : kindOf fs f with
+  | none => simp [hk] at h
+  | some kd => cases kd <;> simp_all
+
+/-- **up_from_restart_time** — "processing resumes from the restart time": when an event is
+    processed at a time `t` that lies in none of the crash / pause windows `[s, r)` of an entity
+    (`t < s`, or `r ≤ t` — in particular exactly at the restart instant `t = r`), the entity is up,
+    provided the ends of its windows that are due by `t` come before this event in the schedule
+    (fault boundaries first at their instant: `FaultSchedule.start` + C01) -/
+theorem up_from_restart_time (c : Case) (tr : List Pop) (k : Nat) (p : Pop) (e : Nat)
+    (hwf : WF c.faults tr) (hl : Legit c tr) (hs : Sorted tr) (hp : tr[k]? = some p)
+    (hend : ∀ f ft, c.faults[f]? = some ft → 0 < downC c.faults f e →
+      (∀ t, Pop.fault t f true ∈ tr → t = ft.s) ∧
+      (∀ r', ft.r = some r' → r' ≤ p.time → Pop.fault r' f false ∈ tr.take k) ∧
+      (p.time < ft.s ∨ ∃ r', ft.r = some r' ∧ r' ≤ p.time)) :
+    (stateAt c tr k).ws.down e = false := by
+  cases h : (stateAt c tr k).ws.down e with
+  | false => rfl
+  | true =>
+    exfalso
+    obtain ⟨f, hf, hpos⟩ := (down_iff_window_active c tr k hwf hl e).mp h
+    have hex : ∃ ft, c.faults[f]? = some ft := by
+      cases hx : c.faults[f]? with
+      | none => simp [downC, kindOf, hx] at hpos
+      | some ft => exact ⟨ft, rfl⟩
+    obtain ⟨ft, hx⟩ := hex
+    obtain ⟨h1, h2, h3⟩ := hend f ft hx hpos
+    have hin := in_window_of_active c.faults tr k p f ft.s ft.r hwf hs
+      (clear_of_down c.faults f e hpos tr) hp h1 h2 hf
+    rcases h3 with h3 | ⟨r', hr', hle⟩
+    · omega
+    · have := hin.2 r' hr'; omega
+
+/-- … so a job delivered at the restart instant (or any later time outside the windows) is entered -/
+theorem delivery_at_restart_time_runs (c : Case) (tr : List Pop) (k t j : Nat)
+    (hwf : WF c.faults tr) (hl : Legit c tr) (hs : Sorted tr) (hp : tr[k]? = some (.job t j false))
+    (hidle : ((stateAt c tr k).procs j).st = .idle)
+    (hend : ∀ f ft, c.faults[f]? = some ft → 0 < downC c.faults f (c.job j).ent →
+      (∀ t', Pop.fault t' f true ∈ tr → t' = ft.s) ∧
+      (∀ r', ft.r = some r' → r' ≤ t → Pop.fault r' f false ∈ tr.take k) ∧
+      (t < ft.s ∨ ∃ r', ft.r = some r' ∧ r' ≤ t)) :
+    ∃ rest, (step c (stateAt c tr k) (.job t j false)).2 = .enter :: rest := by
+  have hup := up_from_restart_time c tr k (.job t j false) (c.job j).ent hwf hl hs hp hend
+  simp [step, popEntity, hup, stepOpen, hidle]
+
 /-! ### cancelling at any point of a fault's life -/
 
 /-- **cancel_before_activation_prevents** — "cancelling a fault handle before activation prevents
@@ -258,7 +311,7 @@ theorem cancel_before_activation_prevents (c : Case) (tr : List Pop) (i t f : Na
   have hno : ∀ t' a, Pop.fault t' f a ∉ tr := by
     rcases hc with hc | hc
     · intro t' a hm
-      have hafter := legit_after_cancel c t f tr c.initCanc i hl hc t' a
+      have hafter := legit_after_cancel c t f tr c.initCanc i hl.2 hc t' a
       rw [← List.take_append_drop (i + 1) tr] at hm
       rcases List.mem_append.mp hm with h | h
       · rw [List.take_add_one, hc] at h
@@ -266,7 +319,7 @@ theorem cancel_before_activation_prevents (c : Case) (tr : List Pop) (i t f : Na
         · exact hbefore t' a h
         · simp at h
       · exact hafter h
-    · exact legit_no_fault_of_canc c f tr _ hl hc
+    · exact legit_no_fault_of_canc c f tr _ hl.2 hc
   exact ⟨hno, fun k => not_mem_foldl_actStep c.faults f _ [] (take_subset_no_fault k hno) (by simp)⟩
 
 /-- **cancel_is_silent** — the call of `FaultHandle.cancel()` itself changes no setting and no
@@ -281,21 +334,26 @@ theorem cancel_is_silent (c : Case) (tr : List Pop) (k t f : Nat) (hp : tr[k]? =
 
 /-! ### direct calls of the Network's partition API between the scheduled windows -/
 
-/-- **heal_all_ends_every_partition** — `Network.heal_partition()` unblocks every direction, ends
-    exactly the partition windows that are open (scheduled and manual), and leaves crash state,
-    latency, loss and capacity as they are -/
-theorem heal_all_ends_every_partition (c : Case) (tr : List Pop) (k t : Nat)
-    (hp : tr[k]? = some (.healall t)) :
-    (∀ a b, (stateAt c tr (k + 1)).ws.blocked a b = false) ∧
+/-- **heal_all_ends_every_partition** — `heal_partition()` on network `k` unblocks every direction
+    of that network, ends exactly the partition windows of that network that are open (scheduled and
+    manual), and leaves the other networks' partitions, crash state, latency, loss and capacity as
+    they are -/
+theorem heal_all_ends_every_partition (c : Case) (tr : List Pop) (k t net : Nat)
+    (hp : tr[k]? = some (.healall t net)) :
+    (∀ a b, netOf a = net → (stateAt c tr (k + 1)).ws.blocked a b = false) ∧
+    (∀ a b, netOf a ≠ net →
+      (stateAt c tr (k + 1)).ws.blocked a b = (stateAt c tr k).ws.blocked a b) ∧
     (∀ e, (stateAt c tr (k + 1)).ws.down e = (stateAt c tr k).ws.down e) ∧
     (∀ base a b, (stateAt c tr (k + 1)).ws.latOf base a b = (stateAt c tr k).ws.latOf base a b) ∧
     (∀ base a b, (stateAt c tr (k + 1)).ws.lossOf base a b = (stateAt c tr k).ws.lossOf base a b) ∧
     (∀ cap, (stateAt c tr (k + 1)).ws.capOf cap = (stateAt c tr k).ws.capOf cap) ∧
     activeAfter c.faults (tr.take (k + 1)) =
-      (activeAfter c.faults (tr.take k)).filter (fun f => !isPartF c.faults f) := by
+      (activeAfter c.faults (tr.take k)).filter (fun f => !partOnF c.faults net f) := by
   rw [stateAt_succ c tr k _ hp, step_healall, activeAfter_succ c.faults tr k _ hp]
-  refine ⟨fun a b => ?_, fun e => rfl, fun _ a b => rfl, fun _ a b => rfl, fun _ => rfl, rfl⟩
-  simp [WS.healAll, WS.blocked]
+  refine ⟨fun a b ha => ?_, fun a b ha => ?_, fun e => rfl, fun _ a b => rfl, fun _ a b => rfl,
+    fun _ => rfl, rfl⟩
+  · simp [WS.healAll, WS.blocked, ha]
+  · simp [WS.healAll, WS.blocked, ha]
 
 /-- **stale_heal_is_noop** — the end of a window that is not active any more (a second
     `Partition.heal()` on the same handle, a `heal()` or the scheduled end of a `NetworkPartition`
@@ -323,12 +381,12 @@ instance (c : Case) (tr : List Pop) : Decidable (Legit c tr) := by unfold Legit;
     two latency windows on 0→1; one capacity window; one cancelled loss fault (index 7) -/
 def exCase : Case :=
   { n := 2, cap := 8, links := [⟨0, 1, 10, 0⟩, ⟨1, 0, 10, 0⟩],
-    faults := [⟨.crash 0, 100, some 800, false, false⟩, ⟨.pause 0, 200, some 300, false, false⟩,
-               ⟨.part false [0] [1], 100, some 500, false, false⟩, ⟨.part false [0] [1], 200, some 300, false, false⟩,
-               ⟨.lat 0 1 5, 100, some 500, false, false⟩, ⟨.lat 0 1 7, 200, some 300, false, false⟩,
-               ⟨.cap 1 2, 100, some 500, false, false⟩, ⟨.loss 0 1 1024, 50, some 60, true, false⟩],
+    faults := [⟨.crash 0, 100, some 800, false, false, 0⟩, ⟨.pause 0, 200, some 300, false, false, 0⟩,
+               ⟨.part false [0] [1], 100, some 500, false, false, 0⟩, ⟨.part false [0] [1], 200, some 300, false, false, 0⟩,
+               ⟨.lat 0 1 5, 100, some 500, false, false, 0⟩, ⟨.lat 0 1 7, 200, some 300, false, false, 0⟩,
+               ⟨.cap 1 2, 100, some 500, false, false, 0⟩, ⟨.loss 0 1 1024, 50, some 60, true, false, 0⟩],
     jobs := [⟨0, [.sleep 150, .emit 10]⟩, ⟨1, [.sleep 5]⟩, ⟨0, [.sleep 1]⟩],
-    probes := [⟨0, 1⟩, ⟨1, 0⟩] }
+    probes := [⟨0, 1, 0⟩, ⟨1, 0, 0⟩] }
 
 def exTr : List Pop :=
   [.job 0 0 false, .fault 100 0 true, .fault 100 2 true, .fault 100 4 true, .fault 100 6 true,
@@ -396,17 +454,17 @@ example :
     [100, 500) whose handle is cancelled at 250, inside its window -/
 def exCase2 : Case :=
   { n := 2, cap := 8, links := [⟨0, 1, 10, 0⟩, ⟨1, 0, 10, 0⟩],
-    faults := [⟨.part false [0] [1], 100, some 400, false, false⟩,
-               ⟨.part false [0] [1], 300, none, false, true⟩,
-               ⟨.lat 0 1 5, 100, some 500, false, false⟩,
-               ⟨.crash 0, 100, some 800, true, false⟩,
-               ⟨.lat 0 1 7, 100, some 500, false, false⟩],
-    probes := [⟨0, 1⟩] }
+    faults := [⟨.part false [0] [1], 100, some 400, false, false, 0⟩,
+               ⟨.part false [0] [1], 300, none, false, true, 0⟩,
+               ⟨.lat 0 1 5, 100, some 500, false, false, 0⟩,
+               ⟨.crash 0, 100, some 800, true, false, 0⟩,
+               ⟨.lat 0 1 7, 100, some 500, false, false, 0⟩],
+    probes := [⟨0, 1, 0⟩] }
 
 def exTr2 : List Pop :=
   [.cancel 50 2,                -- 0: before activation
    .fault 100 0 true, .fault 100 4 true,
-   .healall 200,                -- 3: sweeps window 0, leaves the latency window
+     .healall 200 0,                -- 3: sweeps window 0, leaves the latency window
    .cancel 250 4,               -- 4: inside the window: it never ends
    .fault 300 1 true,           -- 5: manual partition on the same pair
    .fault 400 0 false,          -- 6: scheduled end of the swept window: stale
@@ -423,7 +481,7 @@ example : WF exCase2.faults exTr2 ∧ Legit exCase2 exTr2 ∧ exCase2.initCanc =
     manual window 1, and the window cancelled inside stays -/
 example :
     exTr2[0]? = some (.cancel 50 2) ∧ (∀ t' a, Pop.fault t' 2 a ∉ exTr2.take 0) ∧
-    exTr2[3]? = some (.healall 200) ∧
+    exTr2[3]? = some (.healall 200 0) ∧
     activeAfter exCase2.faults (exTr2.take 3) = [4, 0] ∧
     activeAfter exCase2.faults (exTr2.take 4) = [4] ∧
     exTr2[6]? = some (.fault 400 0 false) ∧ 0 ∉ activeAfter exCase2.faults (exTr2.take 6) ∧
@@ -435,5 +493,17 @@ example :
     specLat exCase2 (activeAfter exCase2.faults (exTr2.take 10)) 0 1 = 17 := by
   refine ⟨by decide, by simp, by decide, by decide, by decide, by decide, by decide, by decide,
     by decide, by decide, by decide, by decide, by decide, by decide⟩
+
+/-! ### non-vacuity of the restart-instant theorems -/
+
+/-- `exCase` with only its crash [100, 800) on worker 0 taking part: a job is delivered to worker 0
+    exactly at the restart instant 800, after the restart event of that instant -/
+def exTr3 : List Pop := [.fault 100 0 true, .job 150 0 false, .fault 800 0 false, .job 800 2 false]
+
+example : WF exCase.faults exTr3 ∧ Legit exCase exTr3 ∧ Sorted exTr3 ∧
+    exTr3[3]? = some (.job 800 2 false) ∧ ((stateAt exCase exTr3 3).procs 2).st = .idle ∧
+    Pop.fault 800 0 false ∈ exTr3.take 3 ∧ 0 < downC exCase.faults 0 (exCase.job 2).ent ∧
+    (step exCase (stateAt exCase exTr3 1) (.job 150 0 false)).2 = [] ∧
+    (step exCase (stateAt exCase exTr3 3) (.job 800 2 false)).2 = [.enter] := by decide
 
 end HappyModel.C06
